@@ -1,3 +1,7 @@
 pub mod alloc;
+pub mod c02;
 pub mod c29;
+pub mod de;
+pub mod interp;
+pub mod interp2;
 pub mod ser;
